@@ -40,7 +40,8 @@ RULE = ("fun stream: vectors of 12-16 components (boundary type x lower/upper fi
         "a VariableScaler (power-of-two scales, dyadic offsets) or a dict round trip of the validated configuration; in 30% "
         "the gradient section is a GradientConfig instance the caller already used for another EnOptConfig with other bound "
         "ranges / another scaler (own magnitudes required, instance unchanged), in 25% it is derived with model_copy(update=...) "
-        "from the gradient section of another validated EnOptConfig; masks written as booleans or 0/1 integers; "
+        "from the gradient section of another validated EnOptConfig; masks written as booleans or 0/1 integers; a stream of configurations without any gradient section (defaults read "
+        "from the tree under test; tolerance comparison) and without a realizations section, mostly under a scaler; "
         "relative perturbations with an infinite bound -- on a free or on a FIXED (masked-out) variable -- and arrays of a "
         "wrong size (rejected). Non-trivial = some component's "
         "pre-boundary value lies outside its bounds (fun) / some row sent to the evaluator differs from the point (eval; "
@@ -233,6 +234,23 @@ def _eval_case(rng, full=False, force_reject=False, force_shape=False, force_sca
             "weights": [rng.randint(1, 4) / 4 for _ in range(R)]}
 
 
+def _omitted_sections_case(rng):
+    """a configuration WITHOUT a gradient section (all defaults: absolute magnitude 0.005, MIRROR_BOTH, 5 perturbations; the
+    values the model uses are read back from ropt.config.enopt.constants), sometimes without a realizations section too,
+    mostly under a VariableScaler (offsets 0 so that the user-domain rows are exact images of the reported vectors).  The
+    default magnitude is not dyadic: compared with the DESIGN 2.2 tolerance."""
+    c = _eval_case(rng, force_scaler=rng.random() < 0.8)
+    V, R = len(c["x"]), c["R"]
+    c.update({"omit_gradient": True, "exact": False, "P": 5, "bts": [MIRROR], "pts": [ABSOLUTE], "ms": [0.005], "gs": None,
+              "shared_gradient": False, "derived_gradient": False, "revalidate": False})
+    c["scripts"] = [[[[_sample_value(rng, False) for _ in range(V)] for _ in range(5)] for _ in range(R)]]
+    if c["scaler"] is not None:
+        c["scaler"]["offsets"] = [0.0] * V
+    if rng.random() < 0.5:
+        c.update({"omit_realizations": True, "R": 1, "weights": [1.0], "scripts": [[s[0]] for s in c["scripts"]]})
+    return c
+
+
 def gen_cases(tier, rng):
     n_fun, n_fun_full, n_eval, n_eval_full, n_rej, n_sc = ((400, 40, 300, 40, 25, 60) if tier == "quick"
                                                            else (12500, 600, 5000, 400, 200, 1200))
@@ -252,6 +270,8 @@ def gen_cases(tier, rng):
         yield _eval_case(rng, fixed_relative=True)
     for _ in range(n_sc):
         yield _eval_case(rng, force_scaler=True)
+    for _ in range(max(n_sc * 2 // 3, 1)):
+        yield _omitted_sections_case(rng)
 
 
 def _norm(case):
@@ -278,6 +298,20 @@ def _run_fun(case):
     same = got3.shape == (2, 3, len(comps)) and bool(np.all(got3 == got))
     from ropt.ensemble_evaluator import _gradient
     return {"got": [float(v) for v in got], "array_same": same, "mirror_repeat": int(_gradient.MIRROR_REPEAT)}
+
+
+def _defaults():
+    from ropt.config.enopt import constants as k
+    return {"ms": [float(k.DEFAULT_PERTURBATION_MAGNITUDE)], "pts": [int(k.DEFAULT_PERTURBATION_TYPE)],
+            "bts": [int(k.DEFAULT_PERTURBATION_BOUNDARY_TYPE)], "P": int(k.DEFAULT_NUMBER_OF_PERTURBATIONS)}
+
+
+def _with_defaults(case, obs):
+    """a case without a gradient section is judged with the defaults of the tree under test"""
+    if case.get("omit_gradient") and isinstance(obs, dict) and obs.get("defaults") and obs["defaults"]["P"] == case["P"]:
+        d = obs["defaults"]
+        return {**case, "ms": d["ms"], "pts": d["pts"], "bts": d["bts"]}
+    return case
 
 
 def _run_eval(case):
@@ -328,12 +362,16 @@ def _run_eval(case):
                      "perturbation_types": case["pts"], "boundary_types": case["bts"]},
         "samplers": [{"method": "verif/scripted", "options": {"script": s}} for s in case["scripts"]],
     }
+    if case.get("omit_gradient"):
+        del cfg_dict["gradient"]
+    if case.get("omit_realizations"):
+        del cfg_dict["realizations"]
     if case["mask"] is not None:
         m = case["mask"]      # written as booleans, 0/1 integers or an integer ndarray: the same mask
         how = case.get("mask_repr", "bool")
         cfg_dict["variables"]["mask"] = ([int(b) for b in m] if how == "int" else
                                          np.array([int(b) for b in m], dtype=np.int64) if how == "ndarray_int" else m)
-    if case["gs"] is not None:
+    if case["gs"] is not None and "gradient" in cfg_dict:
         cfg_dict["gradient"]["samplers"] = case["gs"]
     transforms = None
     if case.get("scaler") is not None:
@@ -423,7 +461,8 @@ def _run_eval(case):
     return {"rejected": False,
             "mags": [float(v) for v in cfg.gradient.perturbation_magnitudes],
             "bts": [int(v) for v in cfg.gradient.boundary_types],
-            "calls": out_calls, "V": V, "mirror_repeat": int(_gradient.MIRROR_REPEAT), "caller_kept": caller_kept}
+            "calls": out_calls, "V": V, "mirror_repeat": int(_gradient.MIRROR_REPEAT), "caller_kept": caller_kept,
+            "defaults": _defaults()}
 
 
 def run_impl(case):
@@ -443,6 +482,7 @@ def _arr3(a):
 
 def coq_case(case, obs):
     _norm(case)
+    case = _with_defaults(case, obs)
     if case["kind"] == "fun":
         comps = case["comps"]
         S = _mag([v for c in comps for v in c[1:]] + obs["got"])
@@ -551,6 +591,7 @@ def _expected_mags(case):
 
 def oracle(case, obs):  # noqa: C901, PLR0911, PLR0912
     _norm(case)
+    case = _with_defaults(case, obs)
     if case["kind"] == "fun":
         if len(obs["got"]) != len(case["comps"]):
             return {"clause": "shape", "detail": len(obs["got"])}
@@ -668,6 +709,7 @@ def features(case, obs):
             "scaler": case.get("scaler") is not None,
             "revalidate": bool(case.get("revalidate")), "shared_gradient_instance": bool(case.get("shared_gradient")) and not case.get("derived_gradient"),
             "derived_gradient_section": bool(case.get("derived_gradient")),
+            "gradient_section_omitted": bool(case.get("omit_gradient")), "realizations_section_omitted": bool(case.get("omit_realizations")),
             "mask_written_as": case.get("mask_repr", "bool") if case["mask"] is not None else "-", "x_is_initial": case["calls"][0]["x"] == case["x"],
             "nonpositive_magnitude": any(m <= 0 for m in case["ms"]),
             "mixed_none": NONE in case["bts"] and len(set(case["bts"])) > 1,
